@@ -12,6 +12,7 @@ import srcmod
 
 ID = "C13"
 THEOREMS = ["asAst_exact", "terminals_exact", "checkAst_iff", "checkAst_refuses", "dictOfPairs_distinct"]
+LEANCHECKER_MODULES = ["Fadl.Props.C13"]  # re-checked by leanchecker in the thorough tier
 RULE = (
     "seeded values (gen/values.py): strings over quote / backslash / control / bracket+operator / Latin-1 / "
     "BMP / astral alphabets and code-like texts, ints (incl. > 64 bit), finite floats (incl. -0.0, 1e22, "
